@@ -3,6 +3,8 @@ For every grammar of the universe the generated source is compiled (valid-Python
 a matrix of parse-time settings; the outcome must (i) equal the model's outcome and (ii) conform to PegSem (layer 1)."""
 from __future__ import annotations
 
+import os
+
 import random
 
 from ..absgrammar import (LEAVES_SMALL, Gen, all_texts, alt, call, enum_exprs, grammar, named, opt, pat, rule, seq, star, subexps,
@@ -116,8 +118,52 @@ def universe(tier, seed):
     return gs
 
 
+HASHSEED_PROBE = r'''
+import json, sys, tatsu
+g = "@@grammar :: H\nstart = x _x $ ;\nx = 'a' ;\n_x = 'b' ;\nx_ = 'c' ;\n"
+model = tatsu.compile(g)
+ns = {}
+exec(compile(tatsu.to_python_sourcecode(g, name='H'), '<gen>', 'exec'), ns)
+out = {}
+for start, text in (('x', 'a'), ('_x', 'b'), ('x_', 'c'), ('start', 'a b')):
+    row = []
+    for p in (model, ns['HParser']()):
+        try:
+            row.append(repr(p.parse(text, start=start)))
+        except Exception as e:
+            row.append(type(e).__name__)
+    out[start] = row
+print(json.dumps(out))
+'''
+
+
+def hashseed_starts(ck):
+    """Rule names that differ only in underscores, each used as the start rule, under several hash seeds (this process runs under one):
+    the generated parser must answer like the model whatever the seed."""
+    import json
+    import subprocess
+    import sys
+    for seed in range(6):
+        env = dict(os.environ, PYTHONHASHSEED=str(seed))
+        p = subprocess.run([sys.executable, '-c', HASHSEED_PROBE], env=env, capture_output=True, text=True, timeout=300)
+        ck.count(evaluations=4, traces=4)
+        try:
+            out = json.loads(p.stdout.strip().splitlines()[-1])
+        except Exception:  # noqa: BLE001
+            ck.violation({'kind': 'parse', 'inputs': {'PYTHONHASHSEED': seed}, 'expected': 'the probe runs', 'observed': (p.stdout + p.stderr)[-400:]},
+                         key='hashseedprobe')
+            continue
+        for start, (m, g_) in out.items():
+            if m != g_:
+                ck.violation({'kind': 'parse', 'inputs': {'grammar': "start = x _x $ ; x = 'a' ; _x = 'b' ; x_ = 'c' ;", 'start': start, 'PYTHONHASHSEED': seed},
+                              'expected': {'model': m}, 'observed': {'generated': g_},
+                              'why': 'generated parser != model for a start rule whose name differs from another rule only in underscores',
+                              'spec': 'C02 (same outcome in both back-ends, whatever the hash seed)'}, key='hashseed' + start)
+
+
 def run(tier):
     ck = Check('C02', tier)
+    hashseed_starts(ck)
     gs = universe(tier, ck.seed)
     texts = all_texts(['a', 'b', ' '], 3) + [list(t) for t in ['abab', 'a b a', 'aab ', 'A b', 'aB', 'a\tb', 'ab b', 'a\t\tb', 'ab\t a', 'a\t']]
     cut_texts = all_texts(['a', 'b', 'c'], 4) + [list('qabc'), list('qaa'), list('qac')]
